@@ -62,6 +62,32 @@ TEXT = {
   "note": "Trusted: Coq kernel, extraction, driver, harness. The statement over whole encoded queries (parser located the options) rests on the correspondence check for the parser part.",
   "technique": "Coq proof about the in-place rewrite + differential correspondence check on option-heavy queries",
  },
+ "C03": {
+  "text": "PARTIAL. Proved in Coq (Properties/C03.v) on a timed model of one exchange: for every DNS53 datagram script and every DoH server script "
+          "(refuse, reset, hang before/mid response, trickle, HTTP error) the exchange completes within the deadline; a message is relayed exactly "
+          "when a complete in-time answer arrived (first >=2-byte datagram with the query's ID; status 200 and EOF before the deadline), SERVFAIL "
+          "otherwise; a failed exchange leaves the resolver state unchanged. Not provable here: that blocked Go network calls return at the "
+          "deadline -- assumed in the model, measured by the engine (real proxy + real DoH/DNS53 servers, fault menu, latency <= timeout+300 ms).",
+  "note": "Trusted: Coq kernel, extraction, driver, harness servers; Go runtime/net/http deadline behaviour is assumed and only measured. F18 (>=65535-byte DoH body relayed cut with TC) kept as C03_oversize_refuted example.",
+  "technique": "Coq proof over a timed exchange model (partial) + fault-injection correspondence check with latency bound",
+ },
+ "C06": {
+  "text": "Proved in Coq (Properties/C06.v) over all histories of DoH/DNS53 queries, clock advances and evictions on one shared cache: every cache "
+          "entry was stored from the upstream answer to a query with exactly its key (profile URL or \"\" for DNS53, class, type, byte-exact name); a "
+          "cache-served reply is the aged copy of the entry under the query's own key; DoH and DNS53 keys never coincide. Tie: real resolver.DNS with "
+          "real HTTP/2+TLS DoH server and UDP server, shared cache, forced elections, compared per query with the extracted model; c06_ok spec on every hit.",
+  "note": "Trusted: Coq kernel, extraction, driver, harness servers, overlay time-shift helpers. ARC eviction abstracted as arbitrary Forget steps.",
+  "technique": "Coq proof (invariant by induction over histories) + differential correspondence check on real transports",
+ },
+ "C07": {
+  "text": "Proved in Coq (Properties/C07.v): for every well-formed message tree updateTTL on its encoding returns the encoding of the same tree with "
+          "every non-OPT TTL aged and capped (nothing else changes) and the smallest aged answer/authority TTL (0 if none / older than max-age); the "
+          "expiry never moves later; the rewriting keeps the length on arbitrary bytes; the serve decision is exactly: not PTR, entry present, minTTL>0, "
+          "fetched after the last announced profile change -- otherwise the upstream is asked. Tie: updateTTL/AdjustedResponse on generated and damaged "
+          "messages and real cache histories, compared byte-for-byte with the extracted model; ttl_ok spec on each rewritten record.",
+  "note": "Trusted: Coq kernel, extraction, driver, harness, add-only overlay exports of updateTTL/AdjustedResponse.",
+  "technique": "Coq proof (encoder/rewriter simulation by induction over records) + differential correspondence check",
+ },
  "C05": {
   "text": "Proved in Coq for all pairs (advertised size 0..65535, upstream length 1..65535): datagram length <= max(512, advertised), "
           "shortened => TC set, fits => full length, every byte other than byte 2 is the upstream's, TCP frame = correct 2-byte prefix + whole message "
